@@ -204,7 +204,8 @@ type SeqP struct {
 }
 
 var seqMenuNames = []string{"token A as issued", "token A, authenticator bit flipped (same nonce)", "token A, last authenticator bit flipped", "token A, nonce bit flipped", "token A, context bit flipped",
-	"token B as issued (same key)", "token B, authenticator of token A", "token of another key as issued", "token A with the authenticator recomputed for a changed nonce (valid, new nonce)"}
+	"token B as issued (same key)", "token B, authenticator of token A", "token of another key as issued", "token A with the authenticator recomputed for a changed nonce (valid, new nonce)",
+	"the bytes of token A cut differently: key id takes the first authenticator byte", "the bytes of token A cut differently: nonce 31 bytes, context 33 bytes"}
 
 func seqMenu(seed int64, it, ik int) ([]tokens.Token, error) {
 	a, err := makeHonest(seed, it, ik, 0)
@@ -226,7 +227,7 @@ func seqMenu(seed int64, it, ik int) ([]tokens.Token, error) {
 	cp := func(h honest) tokens.Token {
 		return tokens.Token{TokenType: uint16(h.T), Nonce: append([]byte{}, h.N...), Context: append([]byte{}, h.C...), KeyID: append([]byte{}, h.ID...), Authenticator: append([]byte{}, h.A...)}
 	}
-	m := make([]tokens.Token, 9)
+	m := make([]tokens.Token, 11)
 	m[0] = cp(a)
 	m[1] = cp(a)
 	m[1].Authenticator[0] ^= 0x80
@@ -243,6 +244,13 @@ func seqMenu(seed int64, it, ik int) ([]tokens.Token, error) {
 	m[8] = cp(a)
 	m[8].Nonce[0] ^= 0x01
 	m[8] = recompute(m[8], it, ik)
+	// same marshalled bytes as token A, other field boundaries (Marshal has no length prefixes)
+	m[9] = cp(a)
+	m[9].KeyID = append(append([]byte{}, a.ID...), a.A[0])
+	m[9].Authenticator = append([]byte{}, a.A[1:]...)
+	m[10] = cp(a)
+	m[10].Nonce = append([]byte{}, a.N[:31]...)
+	m[10].Context = append(append([]byte{}, a.N[31:]...), a.C...)
 	return m, nil
 }
 
@@ -670,7 +678,7 @@ func main() {
 		return p
 	}
 
-	r.SetRule("honest tokens (type x key x input, each from a full wire issuance) crossed with: every single-bit flip of the marshalled token presented to the issuing key through the real decoder; the wire bytes presented to every issuer (both types, all keys) through that issuer's decoder; a fixed list of hand-built tokens.Token structs (moved field boundaries, empty/nil fields, key id 31/33 bytes, authenticator nil/shortened/extended/every proper prefix/of another token, foreign token types, 64 KiB context, authenticator recomputed by the reference for the target key) presented to every issuer; every sequence up to the depth over a 9-letter menu of presentations (as issued, tampered twins with the same nonce, other token, other key, valid token with a new nonce) on ONE issuer object per type; every case is a distinct (token, issuer) pair or sequence; non-trivial = the token reached Verify (was not already refused by the decoder)")
+	r.SetRule("honest tokens (type x key x input, each from a full wire issuance) crossed with: every single-bit flip of the marshalled token presented to the issuing key through the real decoder; the wire bytes presented to every issuer (both types, all keys) through that issuer's decoder; a fixed list of hand-built tokens.Token structs (moved field boundaries, empty/nil fields, key id 31/33 bytes, authenticator nil/shortened/extended/every proper prefix/of another token, foreign token types, 64 KiB context, authenticator recomputed by the reference for the target key) presented to every issuer; every sequence up to the depth over an 11-letter menu of presentations (as issued, tampered twins with the same nonce, other token, other key, valid token with a new nonce) on ONE issuer object per type; every case is a distinct (token, issuer) pair or sequence; non-trivial = the token reached Verify (was not already refused by the decoder)")
 	r.Assume("keys come from a fixed alphabet (derived keys and the scalars 1 and N-1), nonces/challenges from fixed fillers; nothing is claimed for all 2^384 keys",
 		"reference VOPRF = RFC 9497 Evaluate recomposed from circl group primitives (hash-to-group, scalar multiplication, SHA-384/512 finalisation): it shares circl's group arithmetic with the implementation but not the oprf package's control flow or the token input construction",
 		"authenticator inputs longer than 65535 bytes are outside the VOPRF's domain and are not presented")
